@@ -67,6 +67,25 @@ def cloneTxAssigned : List String :=
 /-- fields assigned in `Signature.Clone` (sorted; go/ast over types/types.go). -/
 def cloneSigAssigned : List String := ["Pubkey", "Signature", "Ty"]
 
+/-- value ranges of the Go field types (`int64`, `int32`): the "normalised records" the
+injectivity theorems are stated for. -/
+def I64 (i : Int) : Prop := -2^63 ≤ i ∧ i < 2^63
+def I32 (i : Int) : Prop := -2^31 ≤ i ∧ i < 2^31
+
+instance (i : Int) : Decidable (I64 i) := inferInstanceAs (Decidable (_ ∧ _))
+instance (i : Int) : Decidable (I32 i) := inferInstanceAs (Decidable (_ ∧ _))
+
+structure Signature.WF (s : Signature) : Prop where
+  ty : I32 s.ty
+
+structure Transaction.WF (t : Transaction) : Prop where
+  fee : I64 t.fee
+  expire : I64 t.expire
+  nonce : I64 t.nonce
+  groupCount : I32 t.groupCount
+  chainID : I32 t.chainID
+  sig : ∀ s, t.signature = some s → s.WF
+
 /-- `types.Size(tx)`. -/
 def size (t : Transaction) : Nat := (encode t).length
 
@@ -130,7 +149,7 @@ structure Driver where
   typeID : Int
   enable : Bool
   enableHeight : Int
-  deriving Repr, Inhabited
+  deriving DecidableEq, Repr, Inhabited
 
 abbrev Registry := List Driver
 
@@ -320,24 +339,43 @@ def chainCheck (H : Bytes → Bytes) (n : Nat) (hh : Bytes) :
         if t.next ≠ H (encode (stripSigHeader u)) then .error .groupNext
         else chainCheck H n hh false rest
 
+/-- the para-chain rules of `CheckWithFork` (only when `ForkTxGroupPara` is active). -/
+def paraCheck (paraFork : Bool) (txs : List Transaction) : Except Err Unit :=
+  let titles := dedup (txs.filterMap (fun t => paraTitle t.execer))
+  if paraFork then
+    if titles.length > 1 then .error .groupParaCount
+    else if titles.length > 0 ∧ txs.any (fun t => !isParaExec t.execer) then .error .groupParaMainMixed
+    else .ok ()
+  else .ok ()
+
+/-- the fee rules of `CheckWithFork`. -/
+def feeCheck (c : CheckCfg) (minfee maxFee : Int) (head : Transaction) (tail : List Transaction) :
+    Except Err Unit :=
+  if tail.any (fun t => t.fee ≠ 0) then .error .groupFeeNotZero
+  else match sumFees minfee (head :: tail) with
+    | .error e => .error e
+    | .ok total =>
+      if head.fee < total then .error .feeTooLow
+      else if head.fee > maxFee ∧ maxFee > 0 ∧ c.checkFork then .error .feeTooHigh
+      else .ok ()
+
 /-- `Transactions.CheckWithFork(cfg, checkFork, paraFork, height, minfee, maxFee)`.
 `H` abstracts the hash function (SHA-256 in the executable instance). -/
 def groupCheckWith (H : Bytes → Bytes)
-    (c : CheckCfg) (minfee maxFee : Int) (txs : List Transaction) : Except Err Unit := do
-  if txs.length < 2 then throw .countLessThanTwo
-  firstErr (memberCheck c) txs
-  let titles := dedup (txs.filterMap (fun t => paraTitle t.execer))
-  if c.paraFork then
-    if titles.length > 1 then throw .groupParaCount
-    if titles.length > 0 ∧ txs.any (fun t => !isParaExec t.execer) then throw .groupParaMainMixed
+    (c : CheckCfg) (minfee maxFee : Int) (txs : List Transaction) : Except Err Unit :=
   match txs with
-  | [] => throw .countLessThanTwo
+  | [] => .error .countLessThanTwo
+  | [_] => .error .countLessThanTwo
   | head :: tail =>
-    if tail.any (fun t => t.fee ≠ 0) then throw .groupFeeNotZero
-    let total ← sumFees minfee txs
-    if head.fee < total then throw .feeTooLow
-    if head.fee > maxFee ∧ maxFee > 0 ∧ c.checkFork then throw .feeTooHigh
-    chainCheck H txs.length head.header true txs
+    match firstErr (memberCheck c) txs with
+    | .error e => .error e
+    | .ok _ =>
+    match paraCheck c.paraFork txs with
+    | .error e => .error e
+    | .ok _ =>
+    match feeCheck c minfee maxFee head tail with
+    | .error e => .error e
+    | .ok _ => chainCheck H txs.length head.header true txs
 
 def groupCheck (c : CheckCfg) (minfee maxFee : Int) (txs : List Transaction) : Except Err Unit :=
   groupCheckWith Sha256.hash c minfee maxFee txs
@@ -354,6 +392,9 @@ def groupCheckSign (r : Registry) (validate : String → Bytes → Bytes → Byt
     (h : Int) (txs : List Transaction) : Bool :=
   txs.all (checkSign r validate h)
 
+/-- the final loop of `CreateTxGroup` / `RebuiltGroup`: every member gets the common header. -/
+def setHeader (h : Bytes) (t : Transaction) : Transaction := { t with header := h }
+
 /-- `RebuiltGroup`: recompute `next` links back to front and the common header (count untouched). -/
 def rebuildTail (H : Bytes → Bytes) : List Transaction → List Transaction
   | [] => []
@@ -368,7 +409,7 @@ def rebuiltGroupWith (H : Bytes → Bytes) (txs : List Transaction) : List Trans
   | [] => []
   | h0 :: tl =>
     let header := H (encode (stripSigHeader h0))
-    (h0 :: tl).map (fun t => { t with header := header })
+    (h0 :: tl).map (setHeader header)
 
 def rebuiltGroup (txs : List Transaction) : List Transaction := rebuiltGroupWith Sha256.hash txs
 
@@ -400,6 +441,10 @@ def createTail (H : Bytes → Bytes) (n : Nat) (header0 : Bytes) (feeRate : Int)
       | .error e => .error e
       | .ok rf => .ok (t' :: rest', tot + t.fee, minf + rf)
 
+/-- the head as `CreateTxGroup` rewrites it (count, provisional header, fee, next). -/
+def mkHead (t0 : Transaction) (n : Nat) (header0 : Bytes) (fee : Int) (nxt : Bytes) : Transaction :=
+  { t0 with groupCount := Int.ofNat n, header := header0, fee := fee, next := nxt }
+
 /-- `CreateTxGroup(txs, feeRate)`. -/
 def createGroupWith (H : Bytes → Bytes) (txs : List Transaction) (feeRate : Int) :
     Except Err (List Transaction) :=
@@ -415,16 +460,15 @@ def createGroupWith (H : Bytes → Bytes) (txs : List Transaction) (feeRate : In
       let nxt := match tail' with
         | [] => t0.next
         | u :: _ => H (encode (stripSigHeader u))
-      let probe := { t0 with groupCount := Int.ofNat n, header := header0, fee := 2^62, next := nxt }
-      match realFee probe feeRate with
+      match realFee (mkHead t0 n header0 (2^62) nxt) feeRate with
       | .error e => .error e
       | .ok rf =>
         let total := tot + t0.fee
         let minfee := minf + rf
         let fee := if total < minfee then minfee else total
-        let h0 := { probe with fee := fee }
+        let h0 := mkHead t0 n header0 fee nxt
         let header := H (encode (stripSigHeader h0))
-        .ok ((h0 :: tail').map (fun t => { t with header := header }))
+        .ok ((h0 :: tail').map (setHeader header))
 
 def createGroup (txs : List Transaction) (feeRate : Int) : Except Err (List Transaction) :=
   createGroupWith Sha256.hash txs feeRate
